@@ -119,13 +119,9 @@ fn rn_stmts(v: &mut Vec<Stmt>) {
             }
             Stmt::IfLine { cond, then_, else_ } => {
                 rn_expr(cond);
-                let mut v = vec![(**then_).clone()];
-                rn_stmts(&mut v);
-                **then_ = v.remove(0);
+                rn_stmts(then_);
                 if let Some(e) = else_ {
-                    let mut v = vec![(**e).clone()];
-                    rn_stmts(&mut v);
-                    **e = v.remove(0);
+                    rn_stmts(e);
                 }
             }
             Stmt::Select { subject, cases, else_ } => {
@@ -440,9 +436,13 @@ impl<'a> Ed<'a> {
             }
             Stmt::IfLine { cond, then_, else_ } => {
                 self.expr(cond, p, 0);
-                self.stmt(then_, &format!("{}/then/0", p));
+                {
+                    let pp = p.to_string();
+                    self.stmts(then_, &move |j| format!("{}/then/{}", pp, j));
+                }
                 if let Some(e) = else_ {
-                    self.stmt(e, &format!("{}/else/0", p));
+                    let pp = p.to_string();
+                    self.stmts(e, &move |j| format!("{}/else/{}", pp, j));
                 }
             }
             Stmt::Select { subject, cases, else_ } => {
